@@ -18,7 +18,7 @@ EPS = 2.220446049250313e-16
 
 
 class StopRun(Exception):
-    pass
+    harness = True
 
 
 # ------------------------------------------------------------------ observers (class level, nothing stored on instances)
@@ -123,6 +123,8 @@ def simplify_cfg(s):
 # ------------------------------------------------------------------ the simulation of one instance
 
 class DimwiseSim:
+    strategy = "dimension_wise"
+
     def __init__(self, cfg, rk, ctx, monitors=()):
         self.cfg, self.rk, self.ctx = cfg, rk, ctx
         self.monitors = list(monitors)
@@ -183,12 +185,15 @@ class DimwiseSim:
             # refinements_for_recalculate is a plain attribute (default 100): the buggify knob
             if rf:
                 self.sa.refinements_for_recalculate = rf
-            self.last_ret = self.sa.performSpatiallyAdaptiv(c["lmin"], c["lmax"], self.err, tol=tol, max_evaluations=max_evaluations,
+            self.last_ret = self.sa.performSpatiallyAdaptiv(c["lmin"], c["lmax"], self.error_operator(), tol=tol, max_evaluations=max_evaluations,
                                                             min_evaluations=min_evaluations, print_output=False,
                                                             recalculate_frequently=bool(rf), reevaluate_at_end=reevaluate_at_end, **kw)
             return self.last_ret
         finally:
             _Obs.cur = None
+
+    def error_operator(self):
+        return self.err
 
     def cont(self, tol=-1.0, max_evaluations=None, min_evaluations=1, stop_after=None):
         self.stop_after = stop_after
@@ -619,3 +624,122 @@ class ExactnessMonitor(Monitor):
                                 taint="interpolation" if c.get("modified_basis") else "exactness")
                     return
         ctx.ok("probe_interpolation_exact", len(P) * len(f.probes))
+
+
+# ------------------------------------------------------------------ C05: result oracle (R-quad)
+
+def trapezoid_weights(xs):
+    n = len(xs)
+    w = [0.0] * n
+    for i in range(n - 1):
+        h = 0.5 * (xs[i + 1] - xs[i])
+        w[i] += h
+        w[i + 1] += h
+    return w
+
+
+def rquad_component(f, coords, boundary):
+    """composite trapezoid, tensorised, on the reported 1-D point lists of one component grid; values from the
+    stub's non-counting evaluator; zero boundary values when boundary points are off. Returns (value, sum |w f|)."""
+    import itertools
+    import numpy as np
+    lists = []
+    for c in coords:
+        xs = [float(x) for x in c]
+        w = trapezoid_weights(xs)
+        if not boundary:
+            xs, w = xs[1:-1], w[1:-1]
+        lists.append(list(zip(xs, w)))
+    tot = np.zeros(f.output_length())
+    sabs = 0.0
+    for combo in itertools.product(*lists):
+        w = 1.0
+        for (_, wi) in combo:
+            w *= wi
+        v = np.asarray(f.peek(tuple(x for x, _ in combo)), dtype=float)
+        tot += w * v
+        sabs += abs(w) * float(np.max(np.abs(v)))
+    return tot, sabs
+
+
+class ResultOracle:
+    """clauses of C05 evaluated at a stop of the driver"""
+
+    def __init__(self, sim):
+        self.sim = sim
+
+    def sig(self, **kw):
+        c = self.sim.cfg
+        s = {"strategy": getattr(self.sim, "strategy", "dimension_wise"), "grid": c.get("grid", "GlobalTrapezoidalGrid")}
+        s.update(kw)
+        return s
+
+    def recompute(self):
+        import numpy as np
+        sim = self.sim
+        if hasattr(sim, "recompute_result"):
+            return sim.recompute_result()
+        tot = np.zeros(sim.f.output_length())
+        S = 0.0
+        n = 0
+        for cg in sim.sa.scheme:
+            lv = tuple(int(x) for x in cg.levelvector)
+            coords, _, _ = sim.sa.get_point_coord_for_each_dim(lv)
+            v, sabs = rquad_component(sim.f, coords, sim.cfg["boundary"])
+            tot += cg.coefficient * v
+            S += abs(cg.coefficient) * sabs
+            n += 1
+        return tot, S, n
+
+    def close(self, x, y, S, n):
+        import numpy as np
+        tol = 64 * EPS * max(n, 4) * max(S, 1e-300) * 8
+        return bool(np.all(np.abs(np.asarray(x, dtype=float) - np.asarray(y, dtype=float)) <= tol)), tol
+
+    def at_stop(self, reported, label, final_combi=True, points_weights=True):
+        import numpy as np
+        sim, ctx = self.sim, self.sim.ctx
+        reported = np.array(reported, dtype=float)
+        want, S, n = self.recompute()
+        ok, tol = self.close(reported, want, S, n)
+        ctx.ev("stop", label, [float(x).hex() for x in reported])
+        if not ok:
+            ctx.violate("reported_equals_combination", self.sig(stop=label),
+                        "%s: reported %s, coefficient-weighted sum of independently recomputed component results %s (tol %.2e); scheme=%s" % (
+                            label, reported.tolist(), want.tolist(), tol, sorted(sim.scheme_map().items())), taint="result")
+        ctx.ok("reported_equals_combination")
+        got = np.array(sim.op.get_result(), dtype=float)
+        ok2, _ = self.close(got, reported, S, n)
+        if not ok2 and "result" not in ctx.tainted:
+            ctx.violate("get_result_equals_reported", self.sig(stop=label), "%s: operation.get_result() %s differs from the returned result %s" % (label, got.tolist(), reported.tolist()))
+        if points_weights and "result" not in ctx.tainted:
+            P, W = sim.sa.get_points_and_weights()
+            acc = np.zeros(sim.f.output_length())
+            for p, w in zip(P, W):
+                acc += w * np.asarray(sim.f.peek(tuple(float(x) for x in p)), dtype=float)
+            ok3, tol3 = self.close(acc, reported, S, n)
+            if not ok3:
+                ctx.violate("points_and_weights_reproduce_integral", self.sig(stop=label),
+                            "%s: sum w_i f(x_i) over get_points_and_weights() = %s, reported integral %s (tol %.2e)" % (label, acc.tolist(), reported.tolist(), tol3))
+            ctx.ok("points_and_weights_reproduce_integral")
+        import os
+        if final_combi and not os.environ.get("VERIF_DEBUG_NO_FINAL_COMBI"):
+            # from-scratch re-evaluation is done on a deep copy so that the live instance of the history is left alone
+            clone = copy.deepcopy(sim.sa)
+            live, sim_sa = sim.sa, clone
+            with seams.quiet():
+                r1, _ = clone.evaluate_final_combi()
+            r1 = np.array(r1, dtype=float)
+            ok4, tol4 = self.close(r1, want, S, n)
+            ctx.fault("reevaluate_from_scratch")
+            if not ok4:
+                ctx.violate("final_combi_equals_reported", self.sig(stop=label),
+                            "%s: evaluate_final_combi() = %s, reported/recomputed %s (tol %.2e)" % (label, r1.tolist(), want.tolist(), tol4), taint="final_combi")
+            if "final_combi" not in ctx.tainted:
+                with seams.quiet():
+                    r2, _ = clone.evaluate_final_combi()
+                ok5, _ = self.close(np.array(r2, dtype=float), r1, S, n)
+                if not ok5:
+                    ctx.violate("final_combi_idempotent", self.sig(stop=label), "%s: second evaluate_final_combi() = %s, first %s" % (label, list(r2), r1.tolist()), taint="final_combi")
+                ctx.ok("final_combi_idempotent")
+        return want, S, n
